@@ -531,7 +531,11 @@ class NetworkService(ModelElement):
             if not peer_ifs:
                 continue
             # generally the first one is all we need
-            srv_if.peer_labels = peer_ifs[0].labels
+            labels = peer_ifs[0].labels
+            if labels is None and srv_if.peer_labels is None:
+                # the peer carries no labels and there are none to clear
+                continue
+            srv_if.peer_labels = labels
 
     def get_property(self, pname: str) -> Any:
         """
